@@ -113,6 +113,7 @@ func guardedWrite(r *p2p.VerifRLPX, code uint64, payload []byte) (err error, pn 
 }
 
 type readResult struct {
+	alloc   uint64 // TotalAlloc delta of ReadMsg alone (not of this harness draining the payload)
 	code    uint64
 	size    uint32
 	payload []byte
@@ -126,7 +127,9 @@ func guardedRead(r *p2p.VerifRLPX) (res readResult) {
 			res.pn = p
 		}
 	}()
-	msg, err := r.ReadMsg()
+	var msg p2p.Msg
+	var err error
+	res.alloc = memDelta(func() { msg, err = r.ReadMsg() })
 	if err != nil {
 		res.err = err
 		return
@@ -143,14 +146,15 @@ var msgCodes = []uint64{0, 1, 0x10, 0x7f, 0x80, 0xff, 0x100, 1<<32 - 1, 1 << 32,
 func drawSize(t *rapid.T) int {
 	sizes := []int{0, 1, 15, 16, 17, 1024, 64 << 10, 14, 31, 32, 33, 255, 4096}
 	if ev.Thorough() {
+		// (values from the middle of the range: rapid favours the ends)
 		switch rapid.IntRange(0, 199).Draw(t, "bigsel") {
-		case 0:
+		case 100:
 			return maxFrame
-		case 1:
+		case 101:
 			return maxFrame - 9
-		case 2:
+		case 102:
 			return maxFrame - 1
-		case 3, 4:
+		case 103, 104, 105:
 			return rapid.SampledFrom([]int{1 << 20, 4 << 20, 10<<20 + 1}).Draw(t, "big")
 		}
 	}
@@ -176,9 +180,16 @@ func codeLen(code uint64) int { return len(refrlp.Encode(refrlp.U(code))) }
 
 func roundup16(n int) int { return (n + 15) / 16 * 16 }
 
+// allocBoundFor: 1 MiB for inputs below 1 KiB; otherwise 4 x the 16 MiB frame
+// limit, or 8 x the bytes really received if that is more (ReadMsg with snappy
+// holds the frame, drains it through a growing buffer and decompresses it:
+// about 7 x the input, proportional to what the peer really sent).
 func allocBoundFor(n int) uint64 {
 	if n < 1024 {
 		return allocSmall
+	}
+	if b := uint64(8 * n); b > allocFrame {
+		return b
 	}
 	return allocFrame
 }
@@ -317,8 +328,8 @@ func TestRLPXSession(t *testing.T) {
 			if err, pn := guardedWrite(ends[d], 3, body); err != nil || pn != nil {
 				fail("WriteMsg: %v %v", err, pn)
 			}
-			var res readResult
-			alloc := memDelta(func() { res = guardedRead(ends[1-d]) })
+			res := guardedRead(ends[1-d])
+			alloc := res.alloc
 			if res.pn != nil {
 				fail("ReadMsg panicked on a hostile snappy payload %x: %v", body, res.pn)
 			}
@@ -407,8 +418,8 @@ func TestRLPXSession(t *testing.T) {
 				labels = append(labels, "tamper:"+region, "tamper-kind:"+kind)
 				canon = append(canon, fmt.Sprintf("T%s%d;", kind, pos)...)
 			}
-			var res readResult
-			alloc := memDelta(func() { res = guardedRead(r) })
+			res := guardedRead(r)
+			alloc := res.alloc
 			if res.pn != nil {
 				fail("ReadMsg panicked (code %x size %d, tampered=%v): %v", code, size, dead[d], res.pn)
 			}
